@@ -40,6 +40,8 @@ func c03Pool(thorough bool) []any {
 		&Bin{Or: false, L: m(a, OpEq, "1"), R: m(aa, OpEq, "1")},
 		&Bin{Or: true, L: m(aa, OpEq, "1"), R: m(a, OpEmpty, "")},
 	}
+	// different paths with the same rendered text (see universe.go): each must keep its own value inside one expression
+	pool = append(pool, m([]string{"a", "a.a"}, OpEq, "1"), m([]string{"a", "a/a"}, OpEq, "2"), m([]string{"a", "a", "a"}, OpEq, "3"), m([]string{"a", "a", "a"}, OpEq, "1"))
 	if thorough {
 		pool = append(pool,
 			m(a, OpEq, "0"), m(a, OpNe, "a"), m(a, OpIn, "1"), m(a, OpNotIn, "1"), m(aa, OpNe, "1"), m(aa, OpNotIn, "a"), m(aa, OpNotEmpty, ""), m(aa, OpMatches, "a"),
@@ -74,6 +76,8 @@ func c03Docs(thorough bool) []*Node {
 		mp(str("a"), NSlice(TAny, one, one)), mp(str("a"), NSlice(TAny, one, str("a"))), mp(str("a"), NSlice(TAny)), mp(str("a"), NSlice(TAny, str("a"))),
 		mp(str("a"), NNilAny()), mp(str("b"), one), mp(str("a"), NBool(false, true)), mp(str("a"), NFloat(KFloat64, false, 1.5)),
 		mp(str("a"), mp(str("c"), one)), mp(str("a"), mp(str("a"), one, str("c"), str("a"))),
+		mp(str("a"), mp(str("a.a"), one, str("a/a"), NInt(KInt, false, 2), str("a"), mp(str("a"), NInt(KInt, false, 3)))),
+		mp(str("a"), mp(str("a.a"), NInt(KInt, false, 3), str("a"), mp(str("a"), one))),
 	)
 	return out
 }
